@@ -112,12 +112,82 @@ func metersText(d float64) string {
 	return strconv.FormatFloat(math.Floor(d*1000)/1000, 'f', -1, 64)
 }
 
+// the property's notion of "pattern-matching", stated without the implementation's IsGlob: an id
+// pattern with a wildcard ('*', '?' or a '[' class) selects the ids glob.Match accepts, a pattern
+// without one names exactly one id (c20_idmatch_all_patterns_partial / c20_idmatch_plain)
 func idMatches(pattern, id string) bool {
-	if !verifapi.GlobIsGlob(pattern) {
+	if !strings.ContainsAny(pattern, "*?[") {
 		return pattern == id
 	}
 	ok, _ := verifapi.GlobMatch(pattern, id)
 	return ok
+}
+
+// wildcard class of an id pattern, for the input distribution
+func patternClass(p string) string {
+	var cl []string
+	for _, c := range []struct{ ch, name string }{{"*", "star"}, {"?", "qmark"}, {"[", "class"}, {"\\", "escape"}} {
+		if strings.Contains(p, c.ch) {
+			cl = append(cl, c.name)
+		}
+	}
+	if len(cl) == 0 {
+		return "literal"
+	}
+	return strings.Join(cl, "+")
+}
+
+// id patterns of every wildcard class, over the ids of the fleets below
+var roamPatterns = []string{
+	"*", "*", "car*", "c*[0-2]", "*s?", // star (alone / with others)
+	"car?", "bus?", "???", "c??", "?", "car?-?", "????", // '?' only
+	"car[0-2]", "bus[01]", "[bc]a[rb][0-9]", "ca[^a]", // classes only
+	"[bc]*", "?us*", "c[a]r?", "[bc]??", // mixed
+	`c\ar?`, `\car*`, `ca\r[0-9]`, `car\1`, `\b\u\s?`, // escapes: with a wildcard, and alone (= an exact id that no object has)
+	"car1", "bus0", "b", // literal ids
+}
+
+// checkIsGlob: the pattern-vs-literal decision itself.  (a) correspondence: glob.IsGlob vs
+// Model.Roam.is_glob; (b) direct oracle for c20_isglob_false_shortcut_exact: when IsGlob says
+// "literal" for a pattern that passes the probe and has no escape, glob.Match must accept exactly
+// the pattern itself - otherwise the literal comparison of fenceMatchNearbys drops ids the pattern selects
+func checkIsGlob(r *hx.Result, drv *model.Driver, p string) {
+	impl := verifapi.GlobIsGlob(p)
+	r.Dist("isglob:" + patternClass(p))
+	r.Count("isglob|"+p, impl)
+	if mod := drv.Ask("isglob", model.H(p)); mod != model.B(impl) {
+		r.Fail(hx.Failure{Kind: "correspondence", Signature: "roam-isglob-model", What: "glob.IsGlob differs from Model.Roam.is_glob",
+			Case: map[string]interface{}{"pattern": p, "hex": model.H(p)}, Impl: impl, Model: mod})
+	}
+	if _, err := verifapi.GlobMatch(p, "whatever"); impl || err != nil || strings.Contains(p, "\\") {
+		return
+	}
+	subst := func(with string) string {
+		return strings.NewReplacer("*", with, "?", with, "[", with, "]", with).Replace(p)
+	}
+	for _, cand := range []string{p, subst("a"), subst("1"), subst(""), p + "a"} {
+		if ok, _ := verifapi.GlobMatch(p, cand); ok != (p == cand) {
+			r.Fail(hx.Failure{Kind: "oracle", Signature: "roam-literal-shortcut",
+				What: fmt.Sprintf("glob.IsGlob(%q) = false, so a ROAM fence compares ids with %q literally, but glob.Match(%q, %q) = %v: the fence NEARBY k FENCE ROAM k %s <m> does not report the matching id %q", p, p, p, cand, ok, p, cand),
+				Case: map[string]interface{}{"pattern": p, "id": cand}, Impl: ok})
+			return
+		}
+	}
+}
+
+// a random id pattern over a small alphabet rich in glob syntax
+func randomPattern(rng *rand.Rand) string {
+	alpha := []string{"a", "b", "c", "1", "-", "*", "?", "[", "]", "\\", "^", "\xc3\xa9"}
+	n := 1 + rng.Intn(6)
+	var sb strings.Builder
+	for i := 0; i < n; i++ {
+		if rng.Intn(3) == 0 {
+			sb.WriteString(alpha[rng.Intn(len(alpha))])
+		} else {
+			sb.WriteString(alpha[rng.Intn(5)])
+		}
+	}
+	return sb.String()
 }
 
 func inSearchRect(c verifapi.FenceObj, r float64, o verifapi.FenceObj) bool {
@@ -365,10 +435,34 @@ func runC20(r *hx.Result, cfg hx.Config) {
 	corpus = append(corpus, round{key: "cycle", roamKey: "cycle", fences: []roamFence{{name: "cyclechan", kind: "chan", pattern: "*", meters: 1000}},
 		script: []step{{"a", pos{20, 20}, "corpus"}, {"b", pos{20.001, 20}, "corpus"}, {"a", pos{0, 0}, "del"}, {"b", pos{0, 0}, "del"},
 			{"a", pos{20, 20}, "corpus"}, {"b", pos{20.001, 20}, "corpus"}, {"b", pos{20.002, 20}, "corpus"}}})
+	// one fence per wildcard class of the id pattern ('*', '?', class, escape + wildcard, escape alone, literal)
+	// over the same drive: car10 matches car* but not car? / ???? ; cab matches c?? / [bc]?? only
+	{
+		var fs []roamFence
+		for i, p := range []string{"car*", "car?", "????", "car[0-9]", `c\ar?`, `car\1`, "car1", "[bc]??", "c??", "?*"} {
+			fs = append(fs, roamFence{name: fmt.Sprintf("pcls%d", i), kind: "chan", pattern: p, meters: 1000, nodwell: i%4 == 3})
+		}
+		corpus = append(corpus, round{key: "pcls", roamKey: "pcls", fences: fs,
+			script: []step{{"car1", pos{33, -112}, "corpus"}, {"van1", pos{33.001, -112}, "corpus"}, {"car10", pos{33.002, -112}, "corpus"},
+				{"cab", pos{33.0005, -112.0005}, "corpus"}, {"car3", pos{33.0075, -112.008}, "corpus"}, {"car4", pos{33.004, -112.005}, "corpus"},
+				{"car2", pos{33, -111.98}, "corpus"}, {"car2", pos{33.0005, -112.0005}, "corpus"}, {"car2", pos{33.003, -112.004}, "corpus"},
+				{"car2", pos{33.02, -112}, "corpus"}}})
+	}
 	for i := range corpus {
 		runRound(r, cfg, rng, drv, s, wh, &corpus[i], fmt.Sprintf("corpus%d", i))
 	}
-	patterns := []string{"*", "*", "car*", "car1", "[bc]*", "?us*", "bus0", "c*[0-2]"}
+	patterns := roamPatterns
+	// the pattern-vs-literal decision on every pattern used below and on a random stream
+	for _, p := range append([]string{"truck?", "a?", "?", "w[", "a[", `a\b`, `a\*b`, "a[b", "[]", "[a-]", `\`}, roamPatterns...) {
+		checkIsGlob(r, drv, p)
+	}
+	nIsGlob := 400
+	if cfg.Tier == "thorough" || cfg.Search {
+		nIsGlob = 20000
+	}
+	for i := 0; i < nIsGlob; i++ {
+		checkIsGlob(r, drv, randomPattern(rng))
+	}
 	for n := 0; n < nrounds; n++ {
 		rd := round{key: fmt.Sprintf("fleet%d", n), nsteps: nsteps}
 		rd.roamKey = rd.key
@@ -666,6 +760,7 @@ func runRound(r *hx.Result, cfg hx.Config, rng *rand.Rand, drv *model.Driver, s 
 	c.MustDo("PDELCHAN", "cars*")
 	c.MustDo("PDELCHAN", "tiny*")
 	c.MustDo("PDELCHAN", "cycle*")
+	c.MustDo("PDELCHAN", "pcls*")
 	c.MustDo("PDELHOOK", rd.key+"*")
 }
 
@@ -680,6 +775,7 @@ func checkStep(drv *model.Driver, r *hx.Result, rd *round, f roamFence, st step,
 	key := fmt.Sprintf("%s|%s|%v|%s|near=%s|far=%s|corner=%d", f.kind, f.pattern, f.nodwell, f.detect, idSet(e.model, "nearby"), idSet(e.model, "faraway"), e.cornerCount)
 	r.Count(key, len(e.model) > 0 || e.cornerCount > 0)
 	r.Dist("sink:" + f.kind)
+	r.Dist("pattern-class:" + patternClass(f.pattern))
 	if e.cornerCount > 0 {
 		r.Dist("has-corner-neighbour")
 	}
